@@ -96,22 +96,39 @@ class Run:
                 continue
             if r['tier'] == 'thorough' and self.tier != 'thorough':
                 continue
-            for cfg in r['cfgs']:
+            cfgs = list(r['cfgs'])
+            if self.tier == 'thorough':
+                cfgs += [c for c in sorted(self.facts_by_cfg) if c not in cfgs]
+            for cfg in cfgs:
                 if cfg not in self.facts_by_cfg:
                     continue
+                # the floors and anchors were confirmed on the rule's own configurations; other feature
+                # configurations (thorough tier) may legitimately lack an anchor (feature compiled out): there
+                # the rule reports what it can decide and records, instead of failing closed, what it cannot
+                secondary = cfg not in r['cfgs']
                 F = self.facts_by_cfg[cfg]
                 ctx = RuleCtx(self, r, F, cfg)
                 t = time.time()
                 try:
                     r['fn'](ctx)
                     if ctx.obligations < r['floor'] and not ctx.findings:
-                        ctx.bad(f"FLOOR", f"rule matched {ctx.obligations} obligations, below the confirmed floor "
-                                f"{r['floor']} (anchors moved or rule went vacuous) - cannot decide, failing closed")
+                        if secondary:
+                            ctx.note(f"cfg {cfg}: {ctx.obligations} obligations (< floor {r['floor']} confirmed on cfg {r['cfgs'][0]})")
+                        else:
+                            ctx.bad(f"FLOOR", f"rule matched {ctx.obligations} obligations, below the confirmed floor "
+                                    f"{r['floor']} (anchors moved or rule went vacuous) - cannot decide, failing closed")
                 except AnchorMissing as e:
-                    ctx.bad("ANCHOR-MISSING", f"ANCHOR-MISSING: {e} - cannot decide, failing closed")
+                    if secondary:
+                        ctx.findings = [f for f in ctx.findings]
+                        ctx.note(f"cfg {cfg}: not decided here - {e}")
+                    else:
+                        ctx.bad("ANCHOR-MISSING", f"ANCHOR-MISSING: {e} - cannot decide, failing closed")
                 except Exception as e:
                     tb = traceback.format_exc()
-                    ctx.bad("INTERNAL", f"internal error in rule: {e!r}\n{tb[-1500:]}")
+                    if secondary:
+                        ctx.note(f"cfg {cfg}: rule not applicable to this configuration's code shape ({e!r})")
+                    else:
+                        ctx.bad("INTERNAL", f"internal error in rule: {e!r}\n{tb[-1500:]}")
                 ctx.wall = time.time() - t
                 self.results.append(ctx)
 
